@@ -118,11 +118,22 @@ impl<'a> PrettyPrinter<'a> {
     }
 
     fn convert_list_item_like(&'a self, ctx: Context, item: &'a SyntaxNode) -> ArenaDoc<'a> {
+        // Whether nothing has been emitted since the marker (an empty term: `/ : desc`).
+        let mut after_marker = false;
         self.convert_flow_like(ctx, item, |ctx, child| match child.kind() {
             SyntaxKind::ListMarker | SyntaxKind::EnumMarker | SyntaxKind::TermMarker => {
+                after_marker = true;
                 FlowItem::spaced(self.arena.text(child.text().as_str()))
             }
-            SyntaxKind::Colon => FlowItem::tight_spaced(self.arena.text(child.text().as_str())),
+            SyntaxKind::Colon => {
+                // `/:` would not start a term item.
+                let space_before = std::mem::take(&mut after_marker);
+                FlowItem::new(
+                    self.arena.text(child.text().as_str()),
+                    space_before,
+                    true,
+                )
+            }
             SyntaxKind::Space if child.text().has_linebreak() => {
                 FlowItem::tight(self.arena.hardline())
             }
@@ -133,6 +144,7 @@ impl<'a> PrettyPrinter<'a> {
             ),
             SyntaxKind::Markup if child.children().next().is_some() => {
                 // empty markup is ignored here
+                after_marker = false;
                 FlowItem::spaced(self.convert_markup_impl(
                     ctx,
                     child.cast().expect("markup"),
